@@ -274,7 +274,7 @@ fn execute(scn: &BScn, property: &str) -> RunOutcome {
 
     // ---- model state --------------------------------------------------------------------------
     let initial_comp = target_of(&cfg.initial);
-    let mut twin: Option<Twin> = if cfg.selector {
+    let mut twin: Option<Twin> = if cfg.selector && !cfg.selector_animator_prebuilt {
         None // the selector hands over a timeline in the first frame
     } else {
         cfg.initial_tl.map(|i| {
@@ -339,6 +339,11 @@ fn execute(scn: &BScn, property: &str) -> RunOutcome {
                         e.get_mut::<Animator<Target>>().unwrap().reset();
                     }
                     BOp::PauseTime(_) | BOp::TimeSpeed(_) => {}
+                    BOp::InsertSelector => {
+                        if e.get::<AnimationSelector<Key, Target>>().is_none() {
+                            insert_selector(cfg, &mut e);
+                        }
+                    }
                     BOp::SetTimeline { tl, reset, start_with } => {
                         let comp = e.get::<Target>().unwrap().clone();
                         let mut t = build_target_merged(&cfg.tls[*tl]);
@@ -363,6 +368,7 @@ fn execute(scn: &BScn, property: &str) -> RunOutcome {
             }
             match op {
                 BOp::PauseTime(_) | BOp::TimeSpeed(_) => {}
+                BOp::InsertSelector => out.count("op.selector_inserted_later"),
                 BOp::SetKey(k) => {
                     user_set_key = true;
                     out.count("op.set_key");
@@ -706,7 +712,7 @@ fn execute(scn: &BScn, property: &str) -> RunOutcome {
             if got_sorted != exp_sorted {
                 fail!("C18", "events-do-not-match-state-changes", "frame {fi}: state {state_base:?} -> {:?} (second animator {:?} -> {:?}); events sent: {mine:?}, expected {expected:?}", after.state, before.other.map(|o| o.0), after.other.map(|o| o.0));
             }
-            if events.iter().any(|(e, _)| *e != w.entity && Some(*e) != w.extra && Some(*e) != w.mirror) {
+            if cfg.orphan.is_none() && events.iter().any(|(e, _)| *e != w.entity && Some(*e) != w.extra && Some(*e) != w.mirror) {
                 fail!("C18", "event-for-wrong-entity", "frame {fi}: an event names an entity without an animator");
             }
             if target_changed && after.state == AnimationState::Ended {
@@ -720,7 +726,7 @@ fn execute(scn: &BScn, property: &str) -> RunOutcome {
         // ======================================================================================
         // C19 - selector and chain
         // ======================================================================================
-        if check19 && cfg.selector {
+        if check19 && cfg.selector && before.key.is_some() && after.key.is_some() {
             let key_before = before.key.unwrap();
             let key_after = after.key.unwrap();
             let nontrivial = retargeted || user_set_key || key_before != key_after || pending.is_some();
